@@ -117,6 +117,28 @@ def run(ctx):
     res.site(key, True, dict(detail, verdict="ok" if ok else "VIOLATION"))
     if not ok:
         res.find(key, f.loc(), "the set of used frames is not built from handler.matching_frames(expanded program, instruction).used over the expanded body (%s)" % detail, "a frame used only inside a calibration body is dropped, or a merely blocked frame is kept")
+    # the used-name sets must be computed over the expanded body too: simplify never reads the unexpanded body
+    key = "K6|used-sets-from-expanded-body-only"
+    reads = []
+    for g in [f] + db.closures_of(f):
+        for sp, pl in k2.places_in(g):
+            names = [pr.get("n") for pr in pl["pr"] if isinstance(pr, dict)]
+            if "instructions" in names:
+                e = fn_expr_operand(g, {"c": {"l": pl["l"], "pr": []}})
+                rr, pp = root(e)
+                if rr[0] == "param" and rr[2] == "self":
+                    reads.append(g.loc(sp))
+    # names of CALLs are inserted inside the loop over the expanded body
+    call_ins = False
+    for b2, t2, c2 in f.calls():
+        if c2 and c2.get("name") == "insert" and len(t2["args"]) > 1:
+            e = fn_expr_operand(f, t2["args"][1])
+            if any(n[0] == "as" and n[2] == "Call" for n in _nodes(e)) and any(x[1] == PROGRAM + "::expand_calibrations" for x in expr_calls(e)):
+                call_ins = True
+    ok = not reads and call_ins
+    res.site(key, True, {"reads_of_self.instructions": reads[:3], "call_names_from_expanded_body": call_ins, "verdict": "ok" if ok else "VIOLATION"})
+    if not ok:
+        res.find(key, f.loc(), "simplify computes a used-definitions set from the unexpanded body (reads of self.instructions: %s; CALL names taken from the expanded body: %s)" % (reads[:3], call_ins), "a CALL that appears only inside an applied DEFCAL body loses its PRAGMA EXTERN")
     # waveforms / extern: retain with membership closures
     for store, src_name in (("waveforms", "get_waveform_invocation"), ("extern_pragma_map", None)):
         key = "K5|%s-retained-by-membership" % store
@@ -155,3 +177,9 @@ def run(ctx):
     res.explanation = "Who-writes enumeration on the result of Program::simplify (exactly four stores), provenance of each new value (origin expressions over MIR), and type-directed coverage of get_waveform_invocation."
     res.assumptions = ["FrameSet::intersection / retain semantics as documented; matching_frames correctness is C26"]
     return res
+
+
+def _nodes(e):
+    out = []
+    walk_expr(e, out.append)
+    return out
